@@ -168,7 +168,33 @@ def ctx_tokens(cid, rule, years):
 
 # the calendar and the rule of an op are not part of the op line (the model needs only the year-table rows): the
 # harness keeps a side table from op line to (calendar id, rule) / calendar id.
-SIDE = {}
+SIDE = {}        # op line -> list of entries: (calendar id, rule) for wy.* ops, calendar id for wd.nav
+_CUR = [None]    # the entry being evaluated when a line belongs to several calendars
+
+
+def side_add(line, entry):
+    """Calendars with the same year table near a date (Gregorian/ISO, the Hebrew and several Hijri variants) give
+    the same op line: the line is sent to the model once and evaluated on the code for every calendar it stands for."""
+    lst = SIDE.setdefault(line, [])
+    if entry not in lst:
+        lst.append(entry)
+
+
+def side(line):
+    return _CUR[0] if _CUR[0] is not None else SIDE[line][0]
+
+
+def _for_each_entry(line, fn):
+    entries = SIDE.get(line) or [None]
+    outs = []
+    for e in entries:
+        _CUR[0] = e
+        try:
+            outs.append((e, fn()))
+        finally:
+            _CUR[0] = None
+    return outs
+
 
 _date_cache = {}
 
@@ -196,19 +222,19 @@ _last_sweep = [None, None]
 
 
 def sweep_triples(line, cid, r, d0, k):
-    if _last_sweep[0] == line:
+    if _last_sweep[0] == (line, cid):
         return _last_sweep[1]
     out = [triple(r, mk_date(cid, d0 + i)) for i in range(k)]
-    _last_sweep[0], _last_sweep[1] = line, out
+    _last_sweep[0], _last_sweep[1] = (line, cid), out
     return out
 
 
-def impl(t):
+def _impl(t):
     Pm = P()
     op = t[0]
     line = " ".join(t)
     if op.startswith("wy."):
-        cid, rule = SIDE[line]
+        cid, rule = side(line)
         c = cal_info(cid)[0]
         r = mk_rule(*rule)
         n = int(t[8])
@@ -232,7 +258,7 @@ def impl(t):
             return str(r.get_local_date(a[0], a[1], Pm.IsoDayOfWeek(a[2]) if 1 <= a[2] <= 7 else a[2], c)._days_since_epoch)
     if op == "wd.nav":
         d, tg = int(t[1]), int(t[2])
-        cid = SIDE[line]
+        cid = side(line)
         date = mk_date(cid, d)
         T = dow_arg(tg)
         from pyoda_time import DateAdjusters
@@ -332,12 +358,12 @@ def roundtrip_failure(cid, rule, r, c, date, days, what):
     return None, (wy, w, dow), nweeks
 
 
-def oracle(t):
+def _oracle(t):
     Pm = P()
     op = t[0]
     line = " ".join(t)
     if op == "wy.rt":
-        cid, rule = SIDE[line]
+        cid, rule = side(line)
         c, calc, mn, mx, mnd, mxd = cal_info(cid)
         r = mk_rule(*rule)
         n = int(t[8])
@@ -346,7 +372,7 @@ def oracle(t):
         what = f"calendar {cid} rule {rule} date day-number {days} ({date.year}-{date.month}-{date.day})"
         return roundtrip_failure(cid, rule, r, c, date, days, what)[0]
     if op == "wy.weeks":
-        cid, rule = SIDE[line]
+        cid, rule = side(line)
         c, calc, mn, mx, mnd, mxd = cal_info(cid)
         r = mk_rule(*rule)
         n = int(t[8])
@@ -377,7 +403,7 @@ def oracle(t):
                     return {"key": "week-out-of-range", "what": f"calendar {cid} rule {rule} day {d}: week {w2} of {nweeks} in week-year {wy}"}
         return None
     if op == "wy.of":
-        cid, rule = SIDE[line]
+        cid, rule = side(line)
         c, calc, mn, mx, mnd, mxd = cal_info(cid)
         r = mk_rule(*rule)
         n = int(t[8])
@@ -412,7 +438,7 @@ def oracle(t):
                 return {"key": "iso-rule-vs-isocalendar", "what": f"{what}: pyoda ({wy},{w},{int(dow)}) stdlib {tuple(iso)}"}
         return None
     if op == "wy.sw":
-        cid, rule = SIDE[line]
+        cid, rule = side(line)
         c, calc, mn, mx, mnd, mxd = cal_info(cid)
         r = mk_rule(*rule)
         n = int(t[8])
@@ -457,7 +483,7 @@ def oracle(t):
                     return f
         return None
     if op == "wy.date":
-        cid, rule = SIDE[line]
+        cid, rule = side(line)
         c, calc, mn, mx, mnd, mxd = cal_info(cid)
         r = mk_rule(*rule)
         n = int(t[8])
@@ -505,7 +531,7 @@ def oracle(t):
         return None
     if op == "wd.nav":
         d, tg = int(t[1]), int(t[2])
-        cid = SIDE[line]
+        cid = side(line)
         c = cal_info(cid)[0]
         date = mk_date(cid, d)
         from pyoda_time import DateAdjusters
@@ -571,6 +597,26 @@ def oracle(t):
     return None
 
 
+def impl(t):
+    line = " ".join(t)
+    if len(SIDE.get(line) or ()) <= 1:
+        return _impl(t)
+    outs = _for_each_entry(line, lambda: guard(_impl, t))
+    if all(o == outs[0][1] for _, o in outs):
+        return outs[0][1]
+    return " | ".join(f"{e}: {o}" for e, o in outs)
+
+
+def oracle(t):
+    line = " ".join(t)
+    if len(SIDE.get(line) or ()) <= 1:
+        return _oracle(t)
+    for _, f in _for_each_entry(line, lambda: _oracle(t)):
+        if f:
+            return f
+    return None
+
+
 def edge(cid, ys):
     """year rows an op needs: near the ends of the calendar the validation looks at min_year and max_year + 1"""
     mn, mx = cal_info(cid)[2], cal_info(cid)[3]
@@ -611,18 +657,18 @@ def gen(ctx, cids=None, extras=True):
                     if pre is None:
                         continue
                     line = f"wy.of {pre} {cy} {d}"
-                    SIDE[line] = (cid, rule)
+                    side_add(line, (cid, rule))
                     ops.append(line)
                     if cid == "ISO" and rule == (4, 1, 0) and 2 <= cy <= 9998:
                         line = f"wy.pyiso {pre} {cy} {d}"
-                        SIDE[line] = (cid, rule)
+                        side_add(line, (cid, rule))
                         ops.append(line)
                 for wy in (y,):
                     pre = ctx_tokens(cid, rule, edge(cid, [wy, wy + 1]))
                     if pre is None:
                         continue
                     line = f"wy.weeks {pre} {wy}"
-                    SIDE[line] = (cid, rule)
+                    side_add(line, (cid, rule))
                     ops.append(line)
                     trips = [(1, rule[1]), (1, 1), (52, 7), (53, 1), (54, 3), (0, 1), (rng.randint(1, 53), rng.randint(1, 7)), (53, rng.randint(0, 8))]
                     if rule[2]:
@@ -634,7 +680,7 @@ def gen(ctx, cids=None, extras=True):
                         continue
                     for w, dow in trips:
                         line = f"wy.date {pre2} {wy} {w} {dow}"
-                        SIDE[line] = (cid, rule)
+                        side_add(line, (cid, rule))
                         ops.append(line)
     if not extras:
         return ops
@@ -647,7 +693,7 @@ def gen(ctx, cids=None, extras=True):
             continue
         tg = rng.randint(1, 7) if rng.random() < 0.97 else rng.choice([0, 8, -1, 9])
         line = f"wd.nav {d} {tg} {mnd} {mxd}"
-        SIDE[line] = cid
+        side_add(line, cid)
         ops.append(line)
     # n-th weekday of month (ISO)
     for _ in range(ctx.scale(6000, 300000)):
@@ -679,25 +725,25 @@ def edge_ops():
                 if pre is None:
                     continue
                 line = f"wy.rt {pre} {cy} {d}"
-                SIDE[line] = (cid, rule)
+                side_add(line, (cid, rule))
                 ops.append(line)
         for wy in (mn - 1, mn, mx, mx + 1):
             for rule in rules:
                 pre = ctx_tokens(cid, rule, edge(cid, [wy, wy + 1] if wy <= mx else [wy]))
                 if pre is not None:
                     line = f"wy.weeks {pre} {wy}"
-                    SIDE[line] = (cid, rule)
+                    side_add(line, (cid, rule))
                     ops.append(line)
                 if mn <= wy <= mx:
                     continue
                 pre2 = ctx_tokens(cid, rule, edge(cid, [wy, wy + 1] if wy < mn else [wy - 1, wy]))
                 if pre2 is None:
                     continue
-                for w in (1, 2, 52, 53):
-                    for dow in (rule[1], (rule[1] + 5) % 7 + 1):
-                        line = f"wy.date {pre2} {wy} {w} {dow}"
-                        SIDE[line] = (cid, rule)
-                        ops.append(line)
+                other = (rule[1] + 5) % 7 + 1
+                for w, dow in ((1, rule[1]), (2, rule[1]), (52, rule[1]), (53, rule[1]), (1, other), (53, other)):
+                    line = f"wy.date {pre2} {wy} {w} {dow}"
+                    side_add(line, (cid, rule))
+                    ops.append(line)
     return ops
 
 
@@ -726,7 +772,7 @@ def sweep_ops(cid, years, rules_for_year):
                     continue
                 d0 = max(d0, ry[1])
             line = f"wy.sw {pre} {d0} {d1 - d0 + 1}"
-            SIDE[line] = (cid, rule)
+            side_add(line, (cid, rule))
             ops.append(line)
     return ops
 
@@ -833,7 +879,8 @@ def adjuster_case(case):
         plus = run(lambda: date.plus(p))
         if got != plus or (isinstance(steps, int) and got != steps):
             return {"key": "adjuster-add-period", "what": f"{what}: adjuster {got}, date.plus {plus}, unit by unit {steps}"}
-        if py == 0 and pm == 0 and mnd <= d + 7 * pw + pd <= mxd and got != d + 7 * pw + pd:
+        # weeks are added before days: an intermediate date outside the calendar raises (unit-by-unit semantics, C09)
+        if py == 0 and pm == 0 and mnd <= d + 7 * pw <= mxd and mnd <= d + 7 * pw + pd <= mxd and got != d + 7 * pw + pd:
             return {"key": "adjuster-add-period", "what": f"{what}: adjuster {got}, day arithmetic {d + 7 * pw + pd}"}
         return None
     if kind == "period-time":
@@ -903,10 +950,10 @@ def replay_op(op, failure):
     import re
     m = re.search(r"calendar (.+?) rule \((\d+), (\d+), (\d+)\)", failure.get("what", ""))
     if m and t[0].startswith("wy."):
-        SIDE[op] = (m.group(1), (int(m.group(2)), int(m.group(3)), int(m.group(4))))
+        SIDE[op] = [(m.group(1), (int(m.group(2)), int(m.group(3)), int(m.group(4))))]
         return oracle(t)
     m = re.search(r"calendar (.+?) day ", failure.get("what", ""))
     if m and t[0] == "wd.nav":
-        SIDE[op] = m.group(1)
+        SIDE[op] = [m.group(1)]
         return oracle(t)
     return None
